@@ -252,7 +252,7 @@ func vnConstruct(id string, kind int, src []byte, exp []vnTok, bodyMax int) ([]b
 		nm := []string{"svg", "math"}[which]
 		name, lname := vnCased(id+"f", nm)
 		ename, _ := vnCased(id+"fe", nm)
-		inner := []string{"", "a", "<g/>", "<g x=\"</" + nm + ">\"></g>", "<!--c-->"}[vnPick(id+"fb", 5, 3)]
+		inner := []string{"", "a", "<g/>", "<g x=\"</" + nm + ">\"></g>", "<!--c-->", "<!-- it's \"q -->", "<![CDATA[ ' ]]>", "<?pi \" ?>", "a < b"}[vnPick(id+"fb", 9, 3)]
 		piece := vnCat([]byte("<"), name, []byte(">"), []byte(inner), []byte("</"), ename, []byte(">"))
 		tt := SVGToken
 		if which == 1 {
@@ -351,7 +351,13 @@ func VerifForeignDoc() {
 		attr = vnCat([]byte(" x="), []byte{q}, v, []byte{q})
 	}
 	var child []byte
-	switch vRange("child", 0, 3) {
+	switch vRange("child", 0, 6) {
+	case 4: // markup declarations are not tags: quotes inside them are plain characters
+		child = []byte("<!-- it's -->")
+	case 5:
+		child = []byte("<![CDATA[ \" ]]>")
+	case 6:
+		child = []byte("<?pi ' ?>")
 	case 1:
 		child = []byte("<g/>")
 	case 2:
@@ -379,4 +385,39 @@ func VerifForeignDoc() {
 	tt, _ = l.Next()
 	vAssert(tt == StartTagToken && string(l.Text()) == "p", "element-after-foreign-subtree-lost")
 	vReach("foreigndoc")
+}
+
+// VerifTemplateAttr: with template delimiters configured, an attribute whose NAME contains no
+// template is lower-cased like any other, whatever its value contains; a name that contains a
+// template is left alone; HasTemplate() is true exactly when the token contains a delimiter.
+func VerifTemplateAttr() {
+	vnLight = false
+	name, lname := vnCased("k", []string{"type", "id"}[vRange("kw", 0, 1)])
+	q := []string{"\"", "'", ""}[vRange("q", 0, 2)]
+	val := []string{"v", "{{.K}}", "a{{.K}}b", "{{.A}}{{.B}}"}[vRange("val", 0, 3)]
+	tmplName := vBool("tmplname")
+	var key []byte
+	if tmplName {
+		key = vnCat(name, []byte("{{.N}}"))
+	} else {
+		key = name
+	}
+	src := vnCat([]byte("<INPUT "), key, []byte("="+q+val+q+">x"))
+	l := NewTemplateLexer(parse.NewInputBytes(append(make([]byte, 0, len(src)+1), src...)), GoTemplate)
+	tt, _ := l.Next()
+	vAssert(tt == StartTagToken && string(l.Text()) == "input", "tmpl-attr-starttag")
+	tt, _ = l.Next()
+	vAssert(tt == AttributeToken, "tmpl-attr-token")
+	if tmplName {
+		vAssert(string(l.AttrKey()) == string(key), "templated-attribute-name-altered")
+	} else {
+		vAssert(string(l.AttrKey()) == string(lname), "attribute-name-not-lower-cased")
+	}
+	vAssert(string(l.AttrVal()) == q+val+q, "tmpl-attr-value")
+	vAssert(l.HasTemplate() == (tmplName || val != "v"), "tmpl-attr-hastemplate")
+	tt, _ = l.Next()
+	vAssert(tt == StartTagCloseToken, "tmpl-attr-close")
+	tt, _ = l.Next()
+	vAssert(tt == TextToken, "tmpl-attr-text")
+	vReach("tmplattr")
 }
